@@ -203,8 +203,16 @@ class Ref:
         if fn is None:
             return "unknown"
         # identifiers with whitespace are rejected by the solver interface; what the call does then is not documented
-        if " " in str(op.get("new", "")) or any(" " in str(x.get("id", "")) for x in op.get("rxns", []) + op.get("mets", [])
-                                                  if isinstance(x, dict)):
+        def ws(x):
+            return any(ch.isspace() for ch in str(x))
+
+        if ws(op.get("new", "")) or any(ws(x.get("id", "")) for x in op.get("rxns", []) + op.get("mets", [])
+                                        if isinstance(x, dict)):
+            return "unknown"
+        if len(str(op.get("new", ""))) > 241 or any(len(str(x.get("id", ""))) > 241 for x in op.get("rxns", []) if isinstance(x, dict)):
+            return "unknown"  # beyond the solver's name limit
+        if any(ws(mr.get("id", "")) for x in op.get("rxns", []) if isinstance(x, dict)
+               for mr, _ in x.get("mets", []) if isinstance(mr, dict) and mr.get("t") == "new"):
             return "unknown"
         return fn(op, env)
 
@@ -241,6 +249,10 @@ class Ref:
             mid = mr["id"]
             if mid not in x["mets"] and mid not in self.mets and mr["t"] == "id":
                 return "unknown"  # KeyError part-way: documented to raise, state not determined
+        for mr, c in items:
+            mid = mr["id"]
+            if mr["t"] == "new" and mid not in self.mets and (not mid or any(ch.isspace() for ch in mid)):
+                return "raises"  # the model refuses the new metabolite: nothing changes
         for mr, c in items:
             mid, c = mr["id"], sign * c
             if mr["t"] == "foreign" and mid not in self.mets and mid not in x["mets"]:
@@ -433,6 +445,8 @@ class Ref:
         return "ok"
 
     def t_add_reactions(self, op, env):
+        if any(s["lb"] > s["ub"] for s in op["rxns"]):
+            return "raises"  # such a reaction cannot even be constructed
         specs = [s for s in op["rxns"] if s["id"] not in self.rxns]
         if len({s["id"] for s in specs}) != len(specs):
             return "raises"
@@ -574,9 +588,9 @@ class Ref:
                 try:
                     g = order[g]
                 except IndexError:
-                    return "unknown"
+                    return "raises"
             if g not in self.genes:
-                return "unknown"
+                return "raises"  # every entry is looked up before any gene is touched
             gids.append(g)
         for g in gids:
             self._knock_gene(g)
